@@ -62,6 +62,10 @@ func strConverter(dec *Decoder, o interface{}, p interface{}) {
 		*(*string)(reflect2.PtrOf(p)) = o
 	case *string:
 		*(*string)(reflect2.PtrOf(p)) = *o
+	case []byte:
+		// text that is not UTF-8 is written as bytes; a destination of a named string type
+		// that refers to them gets what the bytes themselves would have given it
+		GetConverter(bytesType, stringType)(dec, o, p)
 	case fmt.Stringer:
 		*(*string)(reflect2.PtrOf(p)) = o.String()
 	case fmt.GoStringer:
@@ -193,8 +197,8 @@ func GetConverter(src, dest reflect.Type) func(dec *Decoder, o interface{}, p in
 	if converter, ok := converterMap.Load(converterMapKey{src, dest}); ok {
 		return converter.(func(dec *Decoder, o interface{}, p interface{}))
 	}
-	if dest == interfaceType {
-		return assignTo
+	if dest == interfaceType || dest.Kind() == reflect.Interface && dest.NumMethod() == 0 {
+		return assignTo // (a named type that is an empty interface holds what interface{} holds)
 	}
 	switch dest.Kind() {
 	case reflect.String:
